@@ -2,6 +2,7 @@
    Only statements.  Model: coq/sys/Dump.v (skops/io/_persist.py: _save fully into
    a BytesIO, only then open/write the sink). *)
 From Skv Require Import PyStr Json Fs FsFacts Dump DumpFacts.
+From Skv Require PyVal CodecDump CodecInsideFacts SinkFacts.
 
 (* _save raised: no operation at all on the sink - path that exists, path that does
    not, open file object - and the same exception leaves dump *)
@@ -101,3 +102,43 @@ Theorem C18_position_oracle :
               /\ apply_ops e st (fst (dump_ops (dumps (oplug c bad)) k)) = st.
 Proof. exact dump_position_oracle. Qed.
 Print Assumptions C18_position_oracle.
+
+(* ---- the same statement over the REAL dump model (coq/io/CodecDump.get_state, all value kinds), not over the abstract
+   container walk above.  x "cannot be persisted" = get_state raises on it from every dump state (an unsupported type, an
+   object whose __getstate__/__reduce__ raises, a property object).  `inside x v`: x sits in v at a position the dumper
+   serialises -- an item of a list/tuple/set, a dict or defaultdict value, a default factory, masked-array data/mask, an
+   RNG state, a slot of functools.partial, the attrs of an operator helper, the owner of a bound method, the state or
+   reduce arguments of an object -- at ANY depth (the relation is closed under nesting). *)
+Theorem C18_codec_inside_raises :
+  forall E base x v, CodecInsideFacts.inside x v -> CodecInsideFacts.always_raises E x ->
+    exists e, CodecDump.dumps_model E base v = Raise e.
+Proof. exact CodecInsideFacts.inside_dumps_raises. Qed.
+Print Assumptions C18_codec_inside_raises.
+
+(* ... and then no kind of destination receives a single byte, under any compression setting: dumps returns nothing, a
+   path (existing or new) and an open file object see no operation (composition with the file-operation model of dump) *)
+Theorem C18_codec_unpersistable_touches_nothing :
+  forall (zipc : nat -> nat -> CodecDump.archive -> bytes) e st E base x v t method level,
+    CodecInsideFacts.inside x v -> CodecInsideFacts.always_raises E x ->
+    SinkFacts.received e st t (SinkFacts.save_model zipc E base v method level) = None
+    /\ (forall k, fst (dump_ops (SinkFacts.save_model zipc E base v method level) k) = []).
+Proof.
+  intros zipc e st E base x v t method level Hin Hx.
+  destruct (CodecInsideFacts.inside_dumps_raises E base x v Hin Hx) as [err He].
+  split; [eapply SinkFacts.failing_dump_delivers_nothing; exact He|].
+  intros k. unfold SinkFacts.save_model. rewrite He. reflexivity.
+Qed.
+Print Assumptions C18_codec_unpersistable_touches_nothing.
+
+(* the three ways a value can be unpersistable in the model *)
+Theorem C18_unpersistable_kinds :
+  forall E, (forall id m c, CodecInsideFacts.always_raises E (PyVal.PUnsup id m c))
+         /\ (forall id m c hk hid err arg, CodecInsideFacts.always_raises E (PyVal.PObj id m c hk hid (PyVal.OKRaise err) arg))
+         /\ (forall id, CodecInsideFacts.always_raises E (PyVal.PProp id)).
+Proof.
+  intros E. repeat split; intros.
+  - apply CodecInsideFacts.unsup_always_raises.
+  - apply CodecInsideFacts.raising_obj_always_raises.
+  - apply CodecInsideFacts.property_always_raises.
+Qed.
+Print Assumptions C18_unpersistable_kinds.
